@@ -67,6 +67,8 @@ macro_rules! cross_ord { ($ctx:expr, $s:expr, $f:expr; $($e:ty),* $(,)?) => { $(
 #[path = "generated.rs"]
 pub mod generated;
 
+include!("randtypes.rs");
+
 pub fn run_all(ctx: &mut Ctx, stream: &str) {
 	let filter_owned = std::env::var("VERIF_TYPE_FILTER").ok();
 	let f = filter_owned.as_deref();
@@ -149,6 +151,9 @@ pub fn run_all(ctx: &mut Ctx, stream: &str) {
 		cross_zw!(ctx, stream, f; (), Box<()>, AllSkipped, PhantomData<u8>, UnitStruct, [u8; 0], TransSkipPayload);
 	}
 	generated::run_generated(ctx, stream, f);
+	if std::env::var("VERIF_NO_CROSS").is_err() {
+		run_random(ctx, stream, f);
+	}
 	zerow!(ctx, stream, f; Vec<()>, VecDeque<()>, LinkedList<()>, Vec<UnitStruct>, Vec<PhantomData<u8>>, BTreeSet<()>,
 		Option<Vec<()>>, [(); 5], [UnitStruct; 3],
 		Vec<Box<()>>, Vec<AllSkipped>, VecDeque<Rc<()>>, (Vec<Box<()>>, u8, bool), BinaryHeap<Box<()>>, Vec<Arc<[u32; 0]>>,
